@@ -195,6 +195,8 @@ def run(chk):
     from ..tyob import leading_zero_tests
     _fi = chk.P.fn(PK + "get_n_cyc_array")
     leading_zero_tests(chk, "R-NCYC", _fi, "indys", "eqsig/fns/peaks_and_crossings.py:get_n_cyc_array", what="a missing index 0", minimum=0)
+    from ..tyob import plateau_cleaner_exact
+    plateau_cleaner_exact(chk, "R-IDX")
     chk.floor("R-PARTITION", 3)
     chk.floor("R-CLEANED", 1)
     chk.floor("R-IDX", 8)
